@@ -1,9 +1,9 @@
 SPECIFICATION Spec
 CONSTANTS
-  Ents = {1, 2, 3, 4}
+  Ents = {1, 2, 3}
   NLists = 4
   LType <- MCLType4
-  Weights = {1, 3}
+  Weights = {1, 2}
   OtherEnts = {1}
 CONSTRAINT Bounded
 INVARIANT Inv
